@@ -38,7 +38,9 @@ def mat_set(config, cwd=None, catalogue=None):
         def fake(q, con=None, **kw):
             m = re.match(r"SELECT typeof\('(.*)'\) as data_type FROM '(.*)' LIMIT 1$", str(q))
             if m:
-                t = catalogue.get(m.group(2) + '\x00' + m.group(1))
+                # per database first (key: database file, table, column), then per table
+                url = str(getattr(getattr(con, 'engine', con), 'url', ''))
+                t = catalogue.get(os.path.basename(url) + '\x00' + m.group(2) + '\x00' + m.group(1), catalogue.get(m.group(2) + '\x00' + m.group(1)))
                 return pd.DataFrame({'data_type': [t]}) if t is not None else pd.DataFrame({'data_type': []})
             return orig_read(q, con=con, **kw)
         pd.read_sql_query = fake
